@@ -42,7 +42,7 @@ LEVEL = "exploration"
 RULE = (
     "cases = (model file, mnemonic, k-th form of that mnemonic, path) for ALL entries of the 17 non-empty arch models "
     "and 2 ISA DBs (multi-name entries per name) on the paths shape / loaded-table comparison / real "
-    "average_port_pressure (all entries, both tiers), rendered one-line kernel through parser + assign_src_dst + "
+    "average_port_pressure (all entries, both tiers; again with all models costed one after the other in one process, in several orders), rendered one-line kernel through parser + assign_src_dst + "
     "assign_tp_lt (thorough: every entry; quick: the sixth selected by VERIF_SEED mod 6), in-process CLI runs "
     "(quick ~100 entries chosen by seed; thorough all entries of small models, a seed-rotated 1/2 or 1/6 of the big "
     "ones), all rows of the load/store tables and defaults, memory variants of register forms, and --db-check of all "
